@@ -47,9 +47,14 @@ Etot(F, E, nd, dd, tail) == Q(dd * EtotNum(F, E, nd, tail), 80)
 Hs(F, E, nd, dd, tail) == Mul(Q(4, 1), Sqrt(Etot(F, E, nd, dd, tail)))
 Hrms(F, E, nd, dd, tail) == Sqrt(Mul(Q(8, 1), Etot(F, E, nd, dd, tail)))
 Hmax(F, E, nd, dd) == Mul(Q(186, 100), Hs(F, E, nd, dd, TRUE))      \* no time axis: k = 1.86
+\* with a time axis: k = sqrt(ln(N)/2), N = round(dt / Tm02) waves per record, dt = MEAN time step in seconds (Holthuijsen)
+Ln(a) == <<"ln", a>>
+Round(a) == <<"round", a>>
 Tm01(F, E, nd) == IF MP(F, E, nd, 1) = 0 THEN NaNTok ELSE Q(20 * MP(F, E, nd, 0), MP(F, E, nd, 1))
 Tm02(F, E, nd) == IF MP(F, E, nd, 2) = 0 THEN NaNTok ELSE Sqrt(Q(400 * MP(F, E, nd, 0), MP(F, E, nd, 2)))
 \* spectral widths: dimensionless, the scalings of the moments cancel
+HmaxT(F, E, nd, dd, dt) == IF MP(F, E, nd, 2) = 0 THEN NaNTok
+                           ELSE Mul(Sqrt(Mul(Q(1, 2), Ln(Round(Div(Q(dt, 1), Tm02(F, E, nd)))))), Hs(F, E, nd, dd, TRUE))
 Swe(F, E, nd) == IF MP(F, E, nd, 0) = 0 THEN NaNTok
                  ELSE Sqrt(Sub(Q(1, 1), Div(Mul(Q(MP(F, E, nd, 2), 1), Q(MP(F, E, nd, 2), 1)),
                                                Mul(Q(MP(F, E, nd, 0), 1), Q(MP(F, E, nd, 4), 1)))))
